@@ -135,6 +135,9 @@ def r2(ctx):
 def r3(ctx):
     from . import c13
     ctx.sub(c13.r2)
+    # ... of the state the index is given: the relabel phase hands on its own cluster objects (a shared object would take the
+    # next labelling's members while the state keeps its own labels)
+    ctx.sub(c13.r6, only=(r"input-write:cluster_label_assignment\.predict_cluster_labels",))
     if mean_source(ctx.ana) == "stored":
         # ... and the statistics phase writes the means the index reads into its own copy of the state, never into a list shared
         # with another state (nothing of this enters an index that averages the member rows itself)
